@@ -1,3 +1,152 @@
 import Ptk.Proto
--- stub: the C12 model driver has not been written yet
-def main : IO Unit := Ptk.Proto.run fun _ => "bad-op"
+import Ptk.Model.C12
+open Ptk Ptk.Proto Ptk.C12
+
+/-- `N` or a natural number -/
+def decOptNat (tok : String) : Option (Option Nat) :=
+  if tok == "N" then some none else tok.toNat?.map some
+
+/-- four tokens `mn mx w pr` -/
+def decSpec : List String → Option ((Option Nat × Option Nat × Option Nat × Option Nat) × List String)
+  | a :: b :: c :: d :: rest => do
+    pure ((← decOptNat a, ← decOptNat b, ← decOptNat c, ← decOptNat d), rest)
+  | _ => none
+
+def decSpecs : Nat → List String →
+    Option (List (Option Nat × Option Nat × Option Nat × Option Nat) × List String)
+  | 0, rest => some ([], rest)
+  | n + 1, toks => do
+    let (s, rest) ← decSpec toks
+    let (ss, rest') ← decSpecs n rest
+    pure (s :: ss, rest')
+
+def decCountedSpecs : List String →
+    Option (List (Option Nat × Option Nat × Option Nat × Option Nat) × List String)
+  | n :: rest => do decSpecs (← decNat n) rest
+  | [] => none
+
+def decNats : List String → Option (List Nat)
+  | toks => toks.mapM decNat
+
+def encDim (d : Option Dim) : String :=
+  match d with
+  | none => "err:ValueError"
+  | some d => s!"{d.min} {d.pref} {d.max} {d.weight}"
+
+def decAlign (tok : String) : Option Align :=
+  match tok with
+  | "0" => some .start
+  | "1" => some .center
+  | "2" => some .stop
+  | "3" => some .justify
+  | _ => none
+
+/-- the fuel handed to the model: far above the number of loop iterations / generator
+    micro-steps needed (each iteration that does not grow a child is followed by a growing one
+    within `n * (maxW + 1)` yields) -/
+def fuelFor (dims : List Dim) (avail : Nat) : Nat :=
+  let n := dims.length
+  let mw := maxOf (dims.map (·.weight))
+  4 * (avail + 2) * (n + 2) * (mw + 2) + 64
+
+def encOutcome : Outcome → String
+  | .tooSmall => "small"
+  | .hang => "err:Hang"
+  | .error => "err:ValueError"
+  | .ok sizes => "ok " ++ encList toString sizes
+
+def encRegion (x y w h : Nat) : String :=
+  if w = 0 ∨ h = 0 then "-" else s!"{x},{y},{w},{h}"
+
+/-- the dimension of every filler window `Window(width=Dimension(preferred=0))`, as seen by the
+    split (for HSplit its *height* is unspecified, for VSplit its width has preferred=0 — both
+    report min 0, preferred 0, default max, default weight) -/
+def fillerDim (horizontal : Bool) : Option Dim :=
+  if horizontal then windowDim none none none none else windowDim none none none (some 0)
+
+structure Req where
+  horizontal : Bool      -- true = HSplit
+  al : Align
+  filler : Dim
+  pad : Dim
+  children : List Dim
+
+def decReq (dir al : String) (rest : List String) : Option (Option Req × List String) := do
+  let horizontal ← (if dir == "h" then some true else if dir == "v" then some false else none)
+  let al ← decAlign al
+  let (pad, rest) ← decSpec rest
+  let (specs, rest) ← decCountedSpecs rest
+  let mk := fun (s : Option Nat × Option Nat × Option Nat × Option Nat) =>
+    windowDim s.1 s.2.1 s.2.2.1 s.2.2.2
+  match fillerDim horizontal, mk pad, specs.mapM mk with
+  | some f, some p, some cs =>
+    pure (some { horizontal := horizontal, al := al, filler := f, pad := p, children := cs }, rest)
+  | _, _, _ => pure (none, rest)
+
+def runDivide (r : Req) (avail : Nat) (done : Bool) : Outcome :=
+  let all := allChildren r.al r.filler r.pad r.children
+  let fuel := fuelFor all avail
+  if r.horizontal then divideH fuel r.al r.filler r.pad r.children avail done
+  else divideV fuel r.al r.filler r.pad r.children avail
+
+def runLayout (r : Req) (x y w h : Nat) (done : Bool) : String :=
+  if !r.horizontal && r.children.isEmpty then "nothing"
+  else
+    let avail := if r.horizontal then h else w
+    match runDivide r avail done with
+    | .tooSmall => "small " ++ encRegion x y w h
+    | .hang => "err:Hang"
+    | .error => "err:ValueError"
+    | .ok sizes =>
+      let start := if r.horizontal then y else x
+      let (regs, rem) := layout start avail sizes
+      let enc := fun (p : Nat × Nat) =>
+        if r.horizontal then encRegion x p.1 w p.2 else encRegion p.1 y p.2 h
+      "ok " ++ encList enc regs ++ " rem:" ++ (match rem with | none => "-" | some p => enc p)
+
+def handle : List String → String
+  | ["dim", a, b, c, d] =>
+    match decSpec [a, b, c, d] with
+    | some ((mn, mx, w, pr), _) => encDim (mkDim mn mx w pr)
+    | none => "bad-op"
+  | ["win", a, b, c, d] =>
+    match decSpec [a, b, c, d] with
+    | some ((mn, mx, w, pr), _) => encDim (windowDim mn mx w pr)
+    | none => "bad-op"
+  | "sum" :: rest =>
+    match decCountedSpecs rest with
+    | some (specs, []) =>
+      match specs.mapM fun s => mkDim s.1 s.2.1 s.2.2.1 s.2.2.2 with
+      | some ds => encDim (sumDims ds)
+      | none => "err:ValueError"
+    | _ => "bad-op"
+  | "max" :: rest =>
+    match decCountedSpecs rest with
+    | some (specs, []) =>
+      match specs.mapM fun s => mkDim s.1 s.2.1 s.2.2.1 s.2.2.2 with
+      | some ds => encDim (maxDims ds)
+      | none => "err:ValueError"
+    | _ => "bad-op"
+  | "take" :: k :: ws =>
+    match decNat k, decNats ws with
+    | some k, some ws =>
+      let g := Gen.init (List.range ws.length) ws
+      if g.ws.isEmpty then "err:ValueError"
+      else
+        match Gen.takeN (4 * (ws.length + 2) * (g.maxW + 2)) k g with
+        | some xs => "ok " ++ encList toString xs
+        | none => "err:Hang"
+    | _, _ => "bad-op"
+  | "div" :: dir :: al :: done :: avail :: rest =>
+    match decBool done, decNat avail, decReq dir al rest with
+    | some done, some avail, some (some r, []) => encOutcome (runDivide r avail done)
+    | some _, some _, some (none, []) => "err:ValueError"
+    | _, _, _ => "bad-op"
+  | "lay" :: dir :: al :: done :: x :: y :: w :: h :: rest =>
+    match decBool done, decNats [x, y, w, h], decReq dir al rest with
+    | some done, some [x, y, w, h], some (some r, []) => runLayout r x y w h done
+    | some _, some _, some (none, []) => "err:ValueError"
+    | _, _, _ => "bad-op"
+  | _ => "bad-op"
+
+def main : IO Unit := Ptk.Proto.run handle
